@@ -195,12 +195,27 @@ def st_program(tier2=False, with_mem=True, domains=("sys",), max_sigs=6):
 
         # comb signals form a DAG: comb signal k may read inputs, sync signals and comb signals with a lower index
         body = {"comb": [], "sync": {d: [] for d in doms}}
-        idx_in = [i for i, s in enumerate(sigs) if s["role"] == "in"]
+        # a combinatorial demultiplexer: Array(d0, d1, ..)[ik].eq(value) with a select input that nothing else reads
+        demux = None
+        if draw(st.integers(0, 3)) == 0:
+            kidx = len(sigs)
+            sigs.append({"name": "ik", "w": 2, "signed": False, "role": "in"})
+            dw_, dsg = draw(st.sampled_from([1, 3, 4, 8])), draw(st.booleans())
+            dd = []
+            for j_ in range(draw(st.integers(2, 4))):
+                dd.append(len(sigs))
+                sigs.append({"name": "d%d" % j_, "w": dw_, "signed": dsg, "role": "comb", "dom": None,
+                             "reset": draw(st.sampled_from([0, 0, 1 if not dsg or dw_ > 1 else 0])), "reset_less": False})
+            demux = (kidx, dd)
+        idx_in = [i for i, s in enumerate(sigs) if s["role"] == "in" and not (demux and i == demux[0])]
         idx_sync = [i for i, s in enumerate(sigs) if s["role"] == "sync"]
-        idx_comb = [i for i, s in enumerate(sigs) if s["role"] == "comb"]
+        idx_comb = [i for i, s in enumerate(sigs) if s["role"] == "comb" and not (demux and i in demux[1])]
         for n, t in enumerate(idx_comb):
             avail = idx_in + idx_sync + idx_comb[:n]
             body["comb"].append(stmts([t], avail, 0))
+        if demux:
+            body["comb"].append([["eq", ["arr", [["s", d_] for d_ in demux[1]], ["s", demux[0]]], expr(idx_in + idx_sync)]])
+            idx_in = idx_in + [demux[0]]
         for d in doms:
             ts = [i for i in idx_sync if sigs[i]["dom"] == d]
             if ts:
@@ -251,10 +266,17 @@ def st_program(tier2=False, with_mem=True, domains=("sys",), max_sigs=6):
             mems.append({"w": width, "d": depth, "init": init, "ports": ports})
         ncyc = draw(st.integers(6, 24))
         stim = []
-        for _ in range(ncyc):
+        # sparse stimuli: from one instant to the next a single input changes (everything that depends on that input alone -
+        # an Array key, a select, a memory address - must follow although nothing else moves)
+        sparse = draw(st.integers(0, 2)) == 0
+        for c_ in range(ncyc):
             row = []
-            for i in idx_in:
+            one = draw(st.integers(0, len(idx_in) - 1)) if sparse and c_ else None
+            for j_, i in enumerate(idx_in):
                 w = sigs[i]["w"]
+                if one is not None and j_ != one:
+                    row.append(stim[-1][j_])
+                    continue
                 row.append(draw(st.one_of(st.integers(0, _m(w)), st.sampled_from([0, _m(w), 1 << (w - 1), (1 << (w - 1)) - 1 if w > 1 else 0]))))
             stim.append(row)
         rst = [draw(st.integers(0, 9)) == 0 for _ in range(ncyc)] if not mems else [False] * ncyc
